@@ -94,3 +94,83 @@ Proof.
   - eapply live_dead_excl; eauto.
   - eapply unbounded_idle_walks_not_dead; eauto.
 Qed.
+
+(** ** the converse: the complement of [dead_on_all_paths] in positive, path form.
+    Both path predicates are decidable because the (terminating, characterised) analysis
+    decides them. *)
+Section Positive.
+Variable incl : bool.
+Variable g : cfg.
+Hypothesis W : wf_cfg g = true.
+
+Lemma live_on_path_dec : forall x b, b < nblocks g ->
+  live_on_path incl g x b \/ ~ live_on_path incl g x b.
+Proof.
+  intros x b Hb. destruct (live_run_terminates incl g [] W []) as [_ R].
+  destruct (live_terminal_char incl g [] W _ R b x Hb) as [A _].
+  destruct (in_dec Nat.eq_dec x (getv (snd (live_run Repaired incl g [] [])) b)) as [Hi|Hn].
+  - left. apply A; auto.
+  - right. intro H. apply Hn. apply A; auto.
+Qed.
+
+Lemma dead_dec : forall x b, b < nblocks g ->
+  dead_on_all_paths incl g x b \/ ~ dead_on_all_paths incl g x b.
+Proof.
+  intros x b Hb. destruct (live_run_terminates incl g [x] W []) as [_ R].
+  destruct (live_terminal_char incl g [x] W _ R b x Hb) as [_ B].
+  assert (Hx : In x [x]) by (left; auto).
+  destruct (in_dec Nat.eq_dec x (getv (snd (live_run Repaired incl g [x] [])) b)) as [Hi|Hn].
+  - right. intro H. apply (B Hx) in H. contradiction.
+  - left. apply (B Hx). exact Hn.
+Qed.
+
+Lemma some_not_dead_or_all_dead : forall x l, (forall c, In c l -> c < nblocks g) ->
+  (exists c, In c l /\ ~ dead_on_all_paths incl g x c) \/
+  (forall c, In c l -> dead_on_all_paths incl g x c).
+Proof.
+  intros x l. induction l as [|c t IH]; intros Hl.
+  - right. intros c [].
+  - destruct (dead_dec x c (Hl c (or_introl eq_refl))) as [Hd|Hnd].
+    + destruct (IH (fun c' Hc' => Hl c' (or_intror Hc'))) as [[c' [Hc' Hn]]|Hall].
+      * left. exists c'. split; [right; auto | auto].
+      * right. intros c' [<-|Hc']; auto.
+    + left. exists c. split; [left; auto | auto].
+Qed.
+
+Lemma not_dead_walk : forall x k b, b < nblocks g -> ~ dead_on_all_paths incl g x b ->
+  live_on_path incl g x b \/ exists p, length p = k /\ idle_walk incl g x b p.
+Proof.
+  intros x k. induction k as [|k IH]; intros b Hb Hnd.
+  - destruct (in_dec Nat.eq_dec x (b_use (blk g b))) as [Hu|Hu]; [left; apply lp_use; auto|].
+    destruct (in_dec Nat.eq_dec x (b_def (blk g b))) as [Hd|Hd].
+    + exfalso. apply Hnd. apply dp; auto.
+    + right. exists []. split; auto. split; [exact I|]. intros c [<-|[]]. auto.
+  - destruct (in_dec Nat.eq_dec x (b_use (blk g b))) as [Hu|Hu]; [left; apply lp_use; auto|].
+    destruct (in_dec Nat.eq_dec x (b_def (blk g b))) as [Hd|Hd].
+    + exfalso. apply Hnd. apply dp; auto.
+    + destruct (some_not_dead_or_all_dead x (flow_succ incl g b)) as [[c [Hc Hn]]|Hall].
+      * intros c Hc. eapply wf_succ_lt; eauto.
+      * assert (Hcn : c < nblocks g) by (eapply wf_succ_lt; eauto).
+        destruct (IH c Hcn Hn) as [Hl|[p [Hlen [Hw Hnodes]]]].
+        -- left. apply lp_step with c; auto.
+        -- right. exists (c :: p). split; [simpl; auto|]. split; [simpl; auto|].
+           intros c' [<-|Hc']; auto.
+      * exfalso. apply Hnd. apply dp; auto.
+Qed.
+
+(** for a variable of the initial set: live before b  <->  read on some path from b before being
+    reassigned, OR walks of every length from b never reassign it (an infinite such path) *)
+Theorem live_initial_paths : forall I s', sched_run (live_step Repaired incl g) fst (live_init g I) s' ->
+  forall b x, b < nblocks g -> In x I ->
+    (In x (getv (snd s') b) <->
+     live_on_path incl g x b \/ (forall k, exists p, length p = k /\ idle_walk incl g x b p)).
+Proof.
+  intros I s' H b x Hb HI. split.
+  - intros Hin.
+    assert (Hnd : ~ dead_on_all_paths incl g x b).
+    { intro Hd. apply (live_terminal_char incl g I W s' H b x Hb) in Hd; auto. }
+    destruct (live_on_path_dec x b Hb) as [Hl|Hnl]; [left; auto|].
+    right. intros k. destruct (not_dead_walk x k b Hb Hnd) as [Hl|Hp]; [contradiction | exact Hp].
+  - apply (live_initial_positive incl g I W s' H b x Hb HI).
+Qed.
+End Positive.
